@@ -291,3 +291,7 @@ class EffectsParser:
                 )
                 new_action.numeric_effects.add(numerical_precondition)
                 continue
+
+            raise SyntaxError(
+                f"Unsupported effect node in action {new_action.name}: {effect_node}"
+            )
